@@ -344,7 +344,7 @@ func testValues(attr, ty string) (string, string) {
 }
 
 func runC09(res *Result, tier string, seed int64, replay string) {
-	res.Rule = "EXHAUSTIVE matrix: every body component in a legal context × every attribute of its table × source level {mj-class, tag default, mj-all} with a typed non-default value, and every ordered pair of competing levels (winner value V1, loser value V2 ≠ V1); plus seeded whole documents with heads. Oracle: the document is rewritten by the Spec — the Lean `winner` (driver `res`) is written as the element's own attribute for every (element, attribute) any source defines, the mj-attributes block is dropped — and the rendered <body> must be byte-identical to the body of the original. Non-trivial (informative) = cell whose attribute changes the body at all when set on the element; distinct by (component, attribute, level)"
+	res.Rule = "EXHAUSTIVE matrix: every body component in a legal context × every attribute of its table × source level {mj-class, tag default, mj-all} with a typed non-default value, and every ordered pair of competing levels (winner value V1, loser value V2 ≠ V1); css-class (always accepted) supplied by the tag default, by mj-all and by both, for every component; plus seeded whole documents with heads. Oracle: the document is rewritten by the Spec — the Lean `winner` (driver `res`) is written as the element's own attribute for every (element, attribute) any source defines, the mj-attributes block is dropped — and the rendered <body> must be byte-identical to the body of the original. Non-trivial (informative) = cell whose attribute changes the body at all when set on the element; distinct by (component, attribute, level)"
 	drv, err := startDriverPool(4)
 	if err != nil {
 		res.Disagree(Violation{Sig: "driver-missing", What: err.Error()})
@@ -723,6 +723,46 @@ func runC09(res *Result, tier string, seed int64, replay string) {
 				}
 			}
 		}
+	}
+	// css-class (accepted by every component, not listed in the per-tag table): supplied by the tag's default, by mj-all, by
+	// both — writing the winner on the element itself must not change the body.  (css-class contributed by mj-class is
+	// concatenated, not overridden: not a precedence cell.)
+	for _, tag := range bodyTags {
+		if tag == "mj-raw" {
+			continue
+		}
+		base := parseNodeTree(legalContext(tag, "", ""))
+		if base == nil {
+			continue
+		}
+		find := func(d *Node) *Node {
+			if tag == "mj-body" {
+				return d.child("mj-body")
+			}
+			var t *Node
+			d.child("mj-body").Walk(func(x *Node) {
+				if t == nil && x.Tag == tag {
+					t = x
+				}
+			})
+			return t
+		}
+		if find(base) == nil {
+			continue
+		}
+		own := base.Clone()
+		find(own).Set("css-class", "zz9")
+		informative := bodyFor(base) != bodyFor(own)
+		res.Count(fmt.Sprintf("css-class-informative=%v", informative))
+		withHead := func(kids ...*Node) *Node {
+			d := base.Clone()
+			d.Kids = append([]*Node{{Tag: "mj-head", Kids: []*Node{{Tag: "mj-attributes", Kids: kids}}}}, d.Kids...)
+			return d
+		}
+		mk := func(tagName, v string) *Node { return (&Node{Tag: tagName}).Set("css-class", v) }
+		noop(withHead(mk(tag, "zz9")), find, "css-class", "zz9", "tag-default", informative)
+		noop(withHead(mk("mj-all", "zz9")), find, "css-class", "zz9", "mj-all", informative)
+		noop(withHead(mk("mj-all", "zz8"), mk(tag, "zz9")), find, "css-class", "zz9", "tag-default>mj-all", informative)
 	}
 	// whole documents
 	n := 120
